@@ -2,6 +2,7 @@ package main
 
 import (
 	"fmt"
+	"go/constant"
 	"go/token"
 	"go/types"
 	"sort"
@@ -861,7 +862,64 @@ func checkNodeFlags(p *Prog, r *Report) {
 		r.Undecided("R-VALUE.node-flags", "anchor: addOrUpdateRecordInMap", "pkg/intermediate/aggregate.go", "not found")
 		return
 	}
-	n := 0
+	isBool := func(t types.Type) bool {
+		bt, ok := t.Underlying().(*types.Basic)
+		return ok && bt.Kind() == types.Bool
+	}
+	calleeIs := func(v ssa.Value, name string) bool {
+		c, ok := v.(*ssa.Call)
+		return ok && c.Call.StaticCallee() != nil && c.Call.StaticCallee().Name() == name
+	}
+	// the pair as handed over on one way into the call: constants, isRecordFromSrc(record) itself, or its negation
+	sym := func(v ssa.Value) string {
+		if k, ok := v.(*ssa.Const); ok && k.Value != nil && k.Value.Kind() == constant.Bool {
+			return fmt.Sprint(constant.BoolVal(k.Value))
+		}
+		if calleeIs(v, "isRecordFromSrc") {
+			return "src"
+		}
+		if u, ok := v.(*ssa.UnOp); ok && u.Op == token.NOT && calleeIs(u.X, "isRecordFromSrc") {
+			return "!src"
+		}
+		return "?"
+	}
+	type flagLeaf struct {
+		s, d   ssa.Value
+		guards []guard
+	}
+	var expand func(s, d ssa.Value, gs []guard, depth int) []flagLeaf
+	expand = func(s, d ssa.Value, gs []guard, depth int) []flagLeaf {
+		var blk *ssa.BasicBlock
+		if ph, ok := s.(*ssa.Phi); ok {
+			blk = ph.Block()
+		} else if ph, ok := d.(*ssa.Phi); ok {
+			blk = ph.Block()
+		}
+		if blk == nil || depth > 4 {
+			return []flagLeaf{{s, d, gs}}
+		}
+		var out []flagLeaf
+		for i, pred := range blk.Preds {
+			s2, d2 := s, d
+			if ph, ok := s.(*ssa.Phi); ok && ph.Block() == blk {
+				s2 = ph.Edges[i]
+			}
+			if ph, ok := d.(*ssa.Phi); ok && ph.Block() == blk {
+				d2 = ph.Edges[i]
+			}
+			g2 := append(append([]guard{}, gs...), guardsOf(pred)...)
+			if iff := ifOf(pred); iff != nil && pred.Succs[0] != pred.Succs[1] {
+				if pred.Succs[0] == blk {
+					g2 = append(g2, guard{iff, 0})
+				} else if pred.Succs[1] == blk {
+					g2 = append(g2, guard{iff, 1})
+				}
+			}
+			out = append(out, expand(s2, d2, g2, depth+1)...)
+		}
+		return out
+	}
+	n, nCorr, nPlain := 0, 0, 0
 	eachInstr(f, func(in ssa.Instruction) {
 		c, ok := in.(*ssa.Call)
 		if !ok || c.Call.StaticCallee() == nil {
@@ -869,53 +927,67 @@ func checkNodeFlags(p *Prog, r *Report) {
 		}
 		cal := c.Call.StaticCallee()
 		ps := cal.Params
-		if len(ps) < 3 || ps[len(ps)-1].Name() != "fillDstStats" || ps[len(ps)-2].Name() != "fillSrcStats" {
+		// the callees that take the pair: functions of the package whose last two parameters are booleans
+		if len(ps) < 3 || !isBool(ps[len(ps)-1].Type()) || !isBool(ps[len(ps)-2].Type()) || cal.Pkg == nil || cal.Pkg != f.Pkg {
 			return
 		}
 		n++
 		args := c.Call.Args
-		sv, okS := args[len(args)-2].(*ssa.Const)
-		dv, okD := args[len(args)-1].(*ssa.Const)
-		// branch this call stands in
-		corr, src := 0, 0 // 0 unknown, 1 true, -1 false
-		for _, gd := range guardsOf(in.Block()) {
-			pol := 1
-			if gd.Succ == 1 {
-				pol = -1
-			}
-			switch cv := gd.If.Cond.(type) {
-			case *ssa.Call:
-				if cv.Call.StaticCallee() != nil && cv.Call.StaticCallee().Name() == "isRecordFromSrc" {
+		cons := fmt.Sprintf("addOrUpdateRecordInMap: %s call #%d (fillSrcStats, fillDstStats)", cal.Name(), n)
+		bad, undec := "", ""
+		want := ""
+		for _, lf := range expand(args[len(args)-2], args[len(args)-1], guardsOf(in.Block()), 0) {
+			corr, src := 0, 0 // 0 unknown, 1 true, -1 false
+			for _, gd := range lf.guards {
+				pol := 1
+				if gd.Succ == 1 {
+					pol = -1
+				}
+				cv := gd.If.Cond
+				for {
+					u, ok := cv.(*ssa.UnOp)
+					if !ok || u.Op != token.NOT {
+						break
+					}
+					cv, pol = u.X, -pol
+				}
+				if calleeIs(cv, "isRecordFromSrc") {
 					src = pol
 				}
-				if cv.Call.StaticCallee() != nil && cv.Call.StaticCallee().Name() == "isCorrelationRequired" {
+				if calleeIs(cv, "isCorrelationRequired") {
 					corr = pol
 				}
 			}
+			sv, dv := sym(lf.s), sym(lf.d)
+			got := "(" + sv + "," + dv + ")"
+			switch {
+			case corr == 1:
+				nCorr++
+				want = "(src, !src)"
+				okS := sv == "src" || (src == 1 && sv == "true") || (src == -1 && sv == "false")
+				okD := dv == "!src" || (src == 1 && dv == "false") || (src == -1 && dv == "true")
+				if !okS || !okD {
+					bad = got + " under 'correlation required'" + map[int]string{1: ", record from the source node", -1: ", record from the destination node", 0: ""}[src]
+				}
+			case corr == -1:
+				nPlain++
+				want = "(true, true)"
+				if sv != "true" || dv != "true" {
+					bad = got + " under 'no correlation'"
+				}
+			default:
+				undec = "the call is not under a recognisable (correlation required, record from source) branch"
+			}
 		}
-		want := ""
-		switch {
-		case corr == 1 && src == 1:
-			want = "true,false"
-		case corr == 1 && src == -1:
-			want = "false,true"
-		case corr == -1:
-			want = "true,true"
-		}
-		got := "?"
-		if okS && okD {
-			got = fmt.Sprintf("%v,%v", sv.Value.String() == "true", dv.Value.String() == "true")
-		}
-		cons := fmt.Sprintf("addOrUpdateRecordInMap: %s call #%d (fillSrcStats, fillDstStats)", cal.Name(), n)
-		if want == "" {
-			r.Undecided("R-VALUE.node-flags", cons, p.instrPos(in), "the call is not under a recognisable (correlation required, record from source) branch")
+		if bad == "" && undec != "" {
+			r.Undecided("R-VALUE.node-flags", cons, p.instrPos(in), undec)
 			return
 		}
-		r.Check(got == want, "R-VALUE.node-flags", cons, p.instrPos(in), "("+want+") as its branch requires",
-			"the pair is ("+got+") where the branch stands for ("+want+"): one node's counters / time base / throughput are credited to the other node", true)
+		r.Check(bad == "", "R-VALUE.node-flags", cons, p.instrPos(in), want+" as its branch requires",
+			"the pair is "+bad+": one node's counters / time base / throughput are credited to the other node", true)
 	})
-	if n < 9 {
-		r.Undecided("R-VALUE.node-flags", "anchor: calls taking (fillSrcStats, fillDstStats)", p.pos(f.Pos()), fmt.Sprintf("expected 3 aggregate calls and 6 seed calls, found %d", n))
+	if n < 3 || nCorr == 0 || nPlain == 0 {
+		r.Undecided("R-VALUE.node-flags", "anchor: calls taking (fillSrcStats, fillDstStats)", p.pos(f.Pos()), fmt.Sprintf("expected the aggregate call(s) and the two seed calls under both kinds of branch, found %d calls (%d correlated ways, %d plain ways)", n, nCorr, nPlain))
 	}
 }
 
